@@ -87,6 +87,7 @@ partial def specOf (j : Json) : Option Spec :=
   | some "acc" => (accOfJson j).map Spec.acc
   | some "syn" => do
     some (.syn (← attrsOf (getD j "attrs")) (← bool? (getD j "call")) ((bool? (getD j "nodata")).getD false))
+  | some "dup" => some .dup
   | some "junk" => some .junk
   | some "setctx" => some .setContext
   | _ => none
